@@ -18,7 +18,10 @@ def seeded():
     print('|---|---|---|---|')
     for d in sorted(glob.glob('/verif/seeded/*/')):
         m=json.load(open(d+'meta.json'))
-        r=json.load(open(d+'result.json')) if os.path.exists(d+'result.json') else None
+        r=None
+        for f in ('result.json','result_lane.json'):
+            if os.path.exists(d+f):
+                r=json.load(open(d+f)); break
         files=', '.join(os.path.basename(f) for f in (m.get('files_changed') or []))
         what=(m.get('clause_broken') or '').replace('|','/').replace('\n',' ')
         needs=(m.get('what_it_needs_to_manifest') or '').replace('|','/').replace('\n',' ')
@@ -32,4 +35,16 @@ def seeded():
             rt=json.load(open(d+'result_thorough.json')); extra=' — thorough: '+('**caught**' if rt['exit']==1 else 'missed')
         print('| %s | %s (%s) | %s | %s%s |'%(m['id'],cut(what,170),files,cut(needs,150),res,extra))
 if __name__=='__main__':
-    {'budgets':budgets,'seeded':seeded}[sys.argv[1]]()
+    if sys.argv[1]=='splice':
+        # regenerate the generated parts of DESIGN.md between their BEGIN/END markers
+        import io,contextlib,re
+        d=open('/verif/DESIGN.md').read()
+        for name,fn in (('SEEDED_TABLE',seeded),('BUDGET_TABLE',budgets)):
+            buf=io.StringIO()
+            with contextlib.redirect_stdout(buf): fn()
+            b,e='<!-- %s_BEGIN -->'%name,'<!-- %s_END -->'%name
+            if b in d and e in d:
+                d=d[:d.index(b)+len(b)]+'\n'+buf.getvalue()+d[d.index(e):]
+        open('/verif/DESIGN.md','w').write(d)
+    else:
+        {'budgets':budgets,'seeded':seeded}[sys.argv[1]]()
